@@ -352,7 +352,7 @@ def build():
             ("create_keep", None, 2, True, True), ("recv_keep", lambda: NVHardwareConfig(3), 2, False, False),
             ("create_keep", lambda: NVHardwareConfig(3), 1, False, False), ("recv_measure", None, 2, False, False),
             ("create_measure", None, 2, False, False), ("create_context", None, 2, False, False), ("recv_context", None, 2, False, False),
-            ("recv_rsp", None, 2, False, False)]
+            ("recv_rsp", None, 2, False, False), ("create_keep_min_fidelity", None, 2, False, False), ("recv_keep_min_fidelity", None, 2, False, False)]
     for kind, hw, number, seq, post in EPRS:
         tag = f"{kind}{'+post' if post else ''}{'@NV' if hw else ''}"
         R.add(f"op[epr {tag}]", kind="lia", samples=25, max_paths=3000, inductive=True)(_wrap_native_sdk(mk_epr(kind, hw, number, seq, post)))
